@@ -122,6 +122,19 @@ def enc_case(case):
     return op + "".join("\t" + (a if isinstance(a, bytes) else str(a).encode()).hex() for a in args)
 
 
+def _big_stack():
+    """the extracted OCaml uses non-tail-recursive list functions: give it a large stack"""
+    import resource
+    soft, hard = resource.getrlimit(resource.RLIMIT_STACK)
+    want = 4 << 30
+    if hard != resource.RLIM_INFINITY:
+        want = min(want, hard)
+    try:
+        resource.setrlimit(resource.RLIMIT_STACK, (want, hard))
+    except (ValueError, OSError):
+        pass
+
+
 def run_lines(exe, cases, timeout=3600, shards=16):
     """Run cases through a runner, sharded over processes; returns one result string per case."""
     if not cases:
@@ -132,7 +145,7 @@ def run_lines(exe, cases, timeout=3600, shards=16):
     procs = []
     for ch in chunks:
         data = ("\n".join(enc_case(c) for c in ch) + "\n").encode()
-        p = subprocess.Popen([exe], stdin=subprocess.PIPE, stdout=subprocess.PIPE, stderr=subprocess.PIPE)
+        p = subprocess.Popen([exe], stdin=subprocess.PIPE, stdout=subprocess.PIPE, stderr=subprocess.PIPE, preexec_fn=_big_stack)
         procs.append((p, data, len(ch)))
     # feed and collect with threads to avoid pipe deadlock
     import threading
